@@ -84,6 +84,7 @@ type caOpts struct {
 	serverAuth bool
 	notAfter   time.Time
 	key        *ecdsa.PrivateKey // reuse this key (a second certificate of an existing CA); nil: a new key
+	ski        []byte            // explicit subject key identifier (a CA re-keyed under the same name and identifier)
 }
 
 // reissue mints ANOTHER certificate for the CA a: same subject, same key, new serial number,
@@ -111,6 +112,7 @@ func (p *pki) newAuthority(name string, parent *authority, o caOpts) *authority 
 		BasicConstraintsValid: true,
 		KeyUsage:              sx509.KeyUsageCertSign | sx509.KeyUsageDigitalSignature,
 		ExtraExtensions:       poisonExt(o.poison),
+		SubjectKeyId:          o.ski,
 	}
 	if o.ctEKU {
 		t.UnknownExtKeyUsage = []asn1.ObjectIdentifier{oidCTEKU}
